@@ -370,6 +370,21 @@ Definition surfer_kernel (Pm : mat) (out : vec) (alpha : Q) (y : vec) : mat :=
 Definition is_stationary (n : nat) (K : mat) (p : vec) : Prop :=
   (vsum n p == 1)%Q /\ forall j, j < n -> (p j == mv n K p j)%Q.
 
+(** Powers of a matrix applied to a vector, the polynomial sum_k cs[k] M^k x, and scalar powers
+    (used to state what Horner's scheme and the RH solver compute). *)
+Fixpoint pow_mv (n : nat) (M : mat) (k : nat) (z : vec) : vec :=
+  match k with
+  | O => z
+  | S k' => mv n M (pow_mv n M k' z)
+  end.
+Definition power_sum (n : nat) (M : mat) (cs : list Q) (x : vec) : vec :=
+  fun j => bsum (length cs) (fun k => nthq cs k * pow_mv n M k x j)%Q.
+Fixpoint apow (a : Q) (k : nat) : Q :=
+  match k with
+  | O => 1%Q
+  | S k' => (a * apow a k')%Q
+  end.
+
 (** Executable checks used as oracles. *)
 (** exact: the residual of x is 0 *)
 Definition solution_check (g : wgraph) (alpha : Q) (y x : list Q) : bool :=
@@ -379,13 +394,13 @@ Definition solution_check (g : wgraph) (alpha : Q) (y x : list Q) : bool :=
   forallb (fun j => Qeq_bool (V x j) (mv n (Ma pr alpha) (V x) j + (1 - alpha) * V y j)%Q) (seq 0 n).
 
 (** [residual_check g alpha y p eps]: validator for an approximate PageRank vector p (any scaling).
-    Scale p to x = c p with c = (1-alpha) / (1 - alpha * out.p) (the mass the solution would have),
+    Scale p to x = c p with c = (1-alpha) / (sum p - alpha * out.p) (so that x has the mass a solution has),
     r = |x - (a x + (1-alpha) y)|_1, delta = r / (1-alpha) (distance to the solution),
     s = sum x; accept when delta < |s| and delta (|s| + |x|_1) <= eps |s| (|s| - delta). *)
 Definition residual_parts (g : wgraph) (alpha : Q) (y p : list Q) : Q * Q * Q * Q :=
   let n := length g in
   let pr := normalize g in
-  let den := Qred (1 - alpha * bsum n (fun i => has_out g i * V p i))%Q in
+  let den := Qred (bsum n (V p) - alpha * bsum n (fun i => has_out g i * V p i))%Q in
   let c := Qred ((1 - alpha) / den)%Q in
   let x := vscale c p in
   let r := Qred (norm1 n (fun j => V x j - (mv n (Ma pr alpha) (V x) j + (1 - alpha) * V y j)))%Q in
